@@ -316,7 +316,8 @@ class PyInterp:
                     raise NotEvaluable("slice of an opaque value")
                 return base[lo:hi:st]
             idx = self.eval(e.slice, env)
-            if not isinstance(base, (list, tuple, str, dict, range)):
+            from collections.abc import Mapping as _Mapping
+            if not isinstance(base, (list, tuple, str, dict, range, _Mapping)):
                 raise NotEvaluable("subscript of an opaque value")
             try:
                 return base[idx]
